@@ -256,6 +256,21 @@ def yZeroPointLost : PTensor := { tQ "79" [1, 4, 4, 8] with quant := some ⟨[10
 example : (interfaceProblems demoSrc { demoOut with tensors := demoOut.tensors.set 6 yZeroPointLost }).map (·.kind) =
     ["interface-output-quantisation"] := by
   decide +kernel
+/-- quantisation min / max are part of the comparison: max overwritten by min on a subgraph output is rejected -/
+def tMM (name : String) (mn mx : Nat) : PTensor :=
+  { tQ name [1, 4, 4, 8] with quant := some ⟨[1036831949], [-3], [mn], [mx], 0⟩ }
+example : (interfaceProblems { demoSrc with tensors := demoSrc.tensors.set 4 (tMM "79" 3240099840 1095237632) }
+    { demoOut with tensors := demoOut.tensors.set 6 (tMM "79" 3240099840 3240099840) }).map (·.kind) =
+    ["interface-output-quantisation"] := by decide +kernel
+example : interfaceProblems { demoSrc with tensors := demoSrc.tensors.set 4 (tMM "79" 3240099840 1095237632) }
+    { demoOut with tensors := demoOut.tensors.set 6 (tMM "79" 3240099840 1095237632) } = [] := by decide +kernel
+/-- an omitted optional operand in the middle is compared by position: [a, -1, c] written as [a, c] is rejected,
+    while a trailing -1 is insignificant -/
+example : (operandProblems demoSrc demoOut [] 1 32 [some 3, none, some 0] [some 0, some 5]).map (·.kind) = ["operand-count"] := by
+  decide +kernel
+example : (operandProblems demoSrc demoOut [] 1 32 [some 3, none, some 3] [some 0, some 0, some 0]).map (·.kind) = ["operand-presence"] := by
+  decide +kernel
+example : operandProblems demoSrc demoOut [] 1 32 [some 3, none] [some 0] = [] := by decide +kernel
 /-- a CPU operator that silently disappears is reported by the coverage scan -/
 example : ((check demoSrc { demoOut with ops := demoOut.ops.take 1, outputs := [0] }).problems.map (·.kind)).contains "operator-lost" = true := by
   decide +kernel
